@@ -2,7 +2,8 @@
 
 Alphabet: the 2^4 list/scalar patterns of (ustar, mol, wind_speed, wind_dir)
 x list length 1..4 x (no list shortened | list k shortened by one) x timestamps
-{absent, right length, one short, one long} x forcing {ustar, z0, both, neither}.
+{absent, right length, one short, one long} x forcing {ustar, z0, both, neither}; every accepted forcing additionally
+with zero-valued scalars / first list entries (wind_dir = 0 is wind from north - a legitimate, falsy value).
 The whole product is enumerated.  Oracle: vf/oracles/metseries.py.
 Observed on the implementation: acceptance/rejection by parse_config_dict and by
 BLDFMConfig(...) directly, n_timesteps, get_step(i) for every i, and the step
@@ -36,6 +37,9 @@ def enumerate_cases(tier):
                 for short in shorts:
                     for ts in ("absent", "right", "short", "long"):
                         yield {"forcing": forcing, "pat": list(pat), "L": L, "short": short, "ts": ts}
+                        if short is None and ts in ("absent", "right"):
+                            # the same forcing with zero-valued entries (wind from north, calm, ...): legitimate values that are falsy
+                            yield {"forcing": forcing, "pat": list(pat), "L": L, "short": short, "ts": ts, "zeros": True}
 
 
 def build_met(case, seed):
@@ -47,6 +51,8 @@ def build_met(case, seed):
         "wind_dir": 360 * rng.random(),
     }
     step = {"ustar": 0.013, "mol": -7.0, "wind_speed": 0.11, "wind_dir": 3.7}
+    if case.get("zeros"):
+        base.update({"mol": 0.0, "wind_speed": 0.0, "wind_dir": 0.0})
     met = {}
     L = case["L"]
     for k, f in enumerate(FIELDS):
